@@ -272,11 +272,17 @@ where
     if !c.extra.is_empty() || c.limit.is_some() {
         let mut pairs = vec![q.clone()];
         let mut used = std::collections::BTreeSet::new();
+        // half of the cases may repeat a scan parameter: with a token present those are "other scan
+        // parameters" like any other and are ignored, repeated or not
+        let allow_repeats = style.coin();
         for (k, v) in &c.extra {
             let name = ["min", "sort", "name", "unknown"][(*k as usize) % 4];
-            if used.insert(name) {
+            if used.insert(name) || allow_repeats {
                 pairs.push(format!("{}={}", name, enc_component(v, &mut style, true)));
             }
+        }
+        if pairs.len() > used.len() + 1 {
+            st.count("token_with_repeated_scan_param");
         }
         if let Some(l) = c.limit {
             pairs.push(format!("limit={}", l));
